@@ -34,7 +34,9 @@ LEVEL_TEXT = (
     "content is computed by the reference evaluator from the decoded sub-tree - never by the engine, which trusts "
     "the flags under test - and compared with columns, [min_rows, max_rows], is_join_identity and max_rows == 0; the "
     "engine's own result for the root must agree as well, and afterwards every leaf is executed again: it must still "
-    "yield its own rows within its declared bounds."
+    "yield its own rows within its declared bounds.  The executed row count and row keys of the root are held against "
+    "the declared bounds / columns; a user-defined empty-invariant RowFilter relying on the base-class bounds is applied to "
+    "every iteration root; every second program is first built and inspected over twin leaves in the same engines."
 )
 LEVEL_NOTE = "trusts: decode() of library trees through public dataclass fields, reference evaluator; leaves' declared bounds are truthful by construction"
 RULE = (
